@@ -159,11 +159,15 @@ func GetInnerFunc(mode int, start uintptr) (uintptr, error) {
 
 		if inst.Op.String() == CallInsName {
 			relativeAddr := DecodeRelativeAddr(&inst, code, inst.PCRelOff)
+			var target uintptr
 			if relativeAddr >= 0 {
-				return start + uintptr(curLen) + uintptr(relativeAddr) + uintptr(inst.Len), nil
+				target = start + uintptr(curLen) + uintptr(relativeAddr) + uintptr(inst.Len)
+			} else if curLen+int(relativeAddr) < 0 {
+				target = start + uintptr(curLen) - uintptr(-relativeAddr) + uintptr(inst.Len)
 			}
-			if curLen+int(relativeAddr) < 0 {
-				return start + uintptr(curLen) - uintptr(-relativeAddr) + uintptr(inst.Len), nil
+			// wrapper 在调用真正的函数体之前, 可能先调用 runtime 的辅助函数(比如拷贝较大的值接收体/参数时的 duffcopy)
+			if target != 0 && !isRuntimeHelper(target) {
+				return target, nil
 			}
 		}
 
